@@ -34,8 +34,10 @@ ASSUMPTIONS = [
     'P3 is applied only to signatures without constraints, index '
     'expressions/conditions and compares logical content (Diff), not text',
 ]
-FLOORS = {'quick': {'nontrivial': 150, 'roundtrips': 900},
-          'thorough': {'nontrivial': 2000, 'roundtrips': 12000}}
+FLOORS = {'quick': {'legacy_rows_read': 8, 
+                    'nontrivial': 150, 'roundtrips': 900},
+          'thorough': {'legacy_rows_read': 60, 
+                       'nontrivial': 2000, 'roundtrips': 12000}}
 SIZES = {'quick': (300, 500), 'thorough': (5000, 9000)}
 
 
